@@ -10,12 +10,24 @@ use serde::{Deserialize, Serialize};
 
 use crate::{model::ValueTag, FromPrimitive as _};
 
+// fail instead of panicking when a received value is shorter than its syntax requires
 #[inline]
-fn get_len_string(data: &mut Bytes) -> String {
+fn check_len(data: &Bytes, len: usize) -> io::Result<()> {
+    if data.remaining() < len {
+        Err(io::Error::new(io::ErrorKind::InvalidData, "IPP value is too short"))
+    } else {
+        Ok(())
+    }
+}
+
+#[inline]
+fn get_len_string(data: &mut Bytes) -> io::Result<String> {
+    check_len(data, 2)?;
     let len = data.get_u16() as usize;
+    check_len(data, len)?;
     let s = String::from_utf8_lossy(&data[0..len]).into_owned();
     data.advance(len);
-    s
+    Ok(s)
 }
 
 /// IPP attribute values as defined in [RFC 8010](https://tools.ietf.org/html/rfc8010)
@@ -111,6 +123,15 @@ impl IppValue {
             }
         };
 
+        match ipp_tag {
+            ValueTag::Integer | ValueTag::Enum => check_len(&data, 4)?,
+            ValueTag::RangeOfInteger => check_len(&data, 8)?,
+            ValueTag::Boolean => check_len(&data, 1)?,
+            ValueTag::DateTime => check_len(&data, 11)?,
+            ValueTag::Resolution => check_len(&data, 9)?,
+            _ => {}
+        }
+
         let value = match ipp_tag {
             ValueTag::Integer => IppValue::Integer(data.get_i32()),
             ValueTag::Enum => IppValue::Enum(data.get_i32()),
@@ -118,12 +139,12 @@ impl IppValue {
             ValueTag::TextWithoutLanguage => IppValue::TextWithoutLanguage(String::from_utf8_lossy(&data).into_owned()),
             ValueTag::NameWithoutLanguage => IppValue::NameWithoutLanguage(String::from_utf8_lossy(&data).into_owned()),
             ValueTag::TextWithLanguage => IppValue::TextWithLanguage {
-                language: get_len_string(&mut data),
-                text: get_len_string(&mut data),
+                language: get_len_string(&mut data)?,
+                text: get_len_string(&mut data)?,
             },
             ValueTag::NameWithLanguage => IppValue::NameWithLanguage {
-                language: get_len_string(&mut data),
-                name: get_len_string(&mut data),
+                language: get_len_string(&mut data)?,
+                name: get_len_string(&mut data)?,
             },
             ValueTag::Charset => IppValue::Charset(String::from_utf8_lossy(&data).into_owned()),
             ValueTag::NaturalLanguage => IppValue::NaturalLanguage(String::from_utf8_lossy(&data).into_owned()),
